@@ -170,7 +170,8 @@ pub fn try_name(cfg: &Cfg, name: &str, via: Via, in_sub: bool) -> Vec<(String, S
                             continue;
                         }
                     }
-                    if e.long_file_name_as_ucs2_units() == Some(&units[..]) && n == name {
+                    // listed under exactly this name; the long-name units, where the entry has any, are the name's
+                    if n == name && e.long_file_name_as_ucs2_units().map_or(true, |l| l == &units[..]) {
                         found = Some((e.short_file_name(), e.is_dir()));
                     } else {
                         others += 1;
